@@ -177,6 +177,40 @@ def body():
                 sd, st = tinfo[t["id"]]
                 chk.violation("plan:%s" % v["verdict"], "assembly plan for domain %s / dual %s rejected: clause %s at event %d of %d" % (sd, st, v["verdict"], v["at"], v["events"]),
                               {"trace": {k: t[k] for k in ("el", "supT", "supS", "ident", "order")}})
+    # ---- spaces with the normals of one domain swapped: the companion (localised) space of the singular part must carry them too
+    par.quadrature.regular, par.quadrature.singular = 4, 4
+    for gkey, obs in sorted(by_grid.items())[: (2 if quick else 6)]:
+        grid = rg.build_grid(api, obs[0])
+        doms = sorted(set(int(x) for x in grid.domain_indices))
+        if len(doms) < 2:
+            continue
+        for swapped in ([doms[-1]], [doms[0]]):
+            try:
+                P1s = api.function_space(grid, "P", 1, include_boundary_dofs=True, swapped_normals=swapped)
+                D1s = api.function_space(grid, "DP", 1, swapped_normals=swapped)
+                D0s = api.function_space(grid, "DP", 0, swapped_normals=swapped)
+                T = P1s.map_to_full_grid.toarray()
+                b_ = api.operators.boundary
+                for name, fac, test_is_p1 in (("laplace.double_layer", lambda d, t: b_.laplace.double_layer(d, t, t), False),
+                                              ("laplace.adjoint_double_layer", lambda d, t: b_.laplace.adjoint_double_layer(d, t, t), True),
+                                              ("helmholtz.hypersingular", lambda d, t: b_.helmholtz.hypersingular(d, t, t, 0.7 + 0.3j), True)):
+                    if name == "laplace.double_layer":
+                        A = np.asarray(fac(P1s, D0s).weak_form().to_dense())
+                        W = np.asarray(fac(D1s, D0s).weak_form().to_dense()).dot(T)
+                    elif name == "laplace.adjoint_double_layer":
+                        A = np.asarray(fac(D0s, P1s).weak_form().to_dense())
+                        W = T.T.dot(np.asarray(fac(D0s, D1s).weak_form().to_dense()))
+                    else:
+                        A = np.asarray(fac(P1s, P1s).weak_form().to_dense())
+                        W = T.T.dot(np.asarray(fac(D1s, D1s).weak_form().to_dense())).dot(T)
+                    chk.count((str(gkey), "swapped", tuple(swapped), name), True)
+                    chk.cov["obligations_replayed"] += 1
+                    e = np.abs(A - W).max() / max(1e-3, np.abs(W).max())
+                    if not (e <= TOL):   # NaN counts as a deviation
+                        chk.violation("congruence:%s:swapped_normals" % name, "%s on P1 with swapped_normals=%s differs from T' A T (A on the element-wise space with the same normals) by %.3g on %s" % (
+                            name, swapped, e, gkey), {"grid": list(map(str, gkey)), "swapped": swapped})
+            except Exception as exc:
+                chk.violation("congruence:swapped_normals:exception", "%s: %s on %s" % (type(exc).__name__, str(exc)[:160], gkey), {})
     # ---- nested refinement with exact probes -------------------------------------------------
     surfs = c01.galerkin_obligations(chk, "c04g", "BoxesTiny", "ExtraNone", [0], ["OCT", "TET"], 2)
     lap = api.operators.boundary.laplace
